@@ -142,8 +142,11 @@ let () =
       let pairs = if kvs = "-" then [] else List.map (fun kv -> match String.split_on_char ':' kv with [a; b] -> (bytes_of_hex a, bytes_of_hex b) | [a] -> (bytes_of_hex a, []) | _ -> failwith "kv") (String.split_on_char ';' kvs) in
       let q = List.concat (List.mapi (fun i (a, b) -> (if i = 0 then [] else [n_of_int 38]) @ encode_uri a @ [n_of_int 61] @ encode_uri b) pairs) in
       let show m = String.concat ";" (List.sort compare (List.map (fun (k, v) -> hex_of_bytes k ^ "=" ^ hex_of_bytes v) m)) in
-      if k = "qrt" then Printf.printf "Q %s | OK %s\n" (hex_of_bytes q) (show (parse_query q))
-      else (match form_urlencoded_parse q with Some m -> Printf.printf "Q %s | OK %s\n" (hex_of_bytes q) (show m) | None -> Printf.printf "Q %s | ERR\n" (hex_of_bytes q))
+      (* dom: 1 = inside the domain of C17_fields_round_trip (for furt: and the text passes the form parser's filter unchanged); the text built
+         here must then be the model's build_query *)
+      let dom = if map_ok pairs && q = build_query pairs && (k = "qrt" || form_text_ok q) then 1 else 0 in
+      if k = "qrt" then Printf.printf "Q %s | OK %s dom=%d\n" (hex_of_bytes q) (show (parse_query q)) dom
+      else (match form_urlencoded_parse q with Some m -> Printf.printf "Q %s | OK %s dom=%d\n" (hex_of_bytes q) (show m) dom | None -> Printf.printf "Q %s | ERR dom=%d\n" (hex_of_bytes q) dom)
     | ["pct"] -> print_endline "E  | D  dom=1"
     | ["pct"; t] -> let e = encode_uri (bytes_of_hex t) in Printf.printf "E %s | D %s dom=%d\n" (hex_of_bytes e) (hex_of_bytes (decode_uri e)) (if in_F1 (bytes_of_hex t) then 0 else 1)
     | ["pq"] -> print_endline "OK "
